@@ -441,3 +441,20 @@ Proof.
 Qed.
 
 End WithOracles.
+
+(* what the frame relation says, spelled out *)
+Lemma rres_frame_meaning x y : rres_frame x y ->
+  match x, y with
+  | ROk l, ROk l' =>
+      l_curves l = l_curves l' /\ l_data l = l_data l' /\ l_engine_numpy l = l_engine_numpy l' /\
+      l_other l = l_other l' /\
+      subseq (map meta (s_items (l_version l))) (map meta (s_items (l_version l'))) /\
+      subseq (map meta (s_items (l_well l))) (map meta (s_items (l_well l'))) /\
+      subseq (map meta (s_items (l_params l))) (map meta (s_items (l_params l')))
+  | RErr e, RErr e' => e = e'
+  | _, _ => False
+  end.
+Proof.
+  destruct x as [l|e], y as [l'|e']; cbn [rres_frame]; auto.
+  intros (F1 & F2 & F3 & F4 & F5 & F6 & F7 & F8 & F9). repeat split; try assumption; [apply F6|apply F7|apply F8].
+Qed.
